@@ -43,6 +43,7 @@ type sendState struct {
 
 type gen struct {
 	r       *core.Rand
+	rep     *core.Rand // representations of header fields (a stream of its own: the schedules stay what they were)
 	p       Params
 	run     *Runner
 	rcv     map[string]*rcvLedger // by receiving side
@@ -102,6 +103,22 @@ func (g *gen) genFields(big bool, request bool, trailer bool) []Field {
 			}
 			fs = append(fs, Field{N: core.Pick(r, fieldNames), VLen: l, VSeed: uint32(r.U64()), Sens: r.Chance(5)})
 			total -= l
+		}
+	}
+	return represent(g.rep, fs)
+}
+
+// represent draws, field by field, how the sending endpoint writes the list (Field.Raw / Huff /
+// NameLit): a third of the fields leave the endpoint's hpack.Encoder aside and go out as literals
+// without indexing / never indexed, some more become sensitive (never indexed by either writer).
+func represent(r *core.Rand, fs []Field) []Field {
+	for i := range fs {
+		f := &fs[i]
+		if !f.Sens && f.N[0] != ':' && r.Chance(10) {
+			f.Sens = true
+		}
+		if r.Chance(33) {
+			f.Raw, f.Huff, f.NameLit = true, r.Intn(3), r.Chance(35)
 		}
 	}
 	return fs
@@ -709,7 +726,7 @@ func (r *Runner) dirOf(side string) *dirState {
 }
 
 func newGen(seed uint64, p Params, run *Runner) *gen {
-	g := &gen{r: core.NewRand(seed), p: p, run: run, nextC: 1, nextP: 2,
+	g := &gen{r: core.NewRand(seed), rep: core.NewRand(seed ^ 0x6870_6163_6b72_6570), p: p, run: run, nextC: 1, nextP: 2,
 		rcv: map[string]*rcvLedger{}, snd: map[string]*sendState{}}
 	for _, s := range []string{"c", "s"} {
 		g.rcv[s] = &rcvLedger{initWin: 65535, maxFrame: 16384, wu: map[uint32]int64{}, got: map[uint32]int64{}, pend: map[uint32][]int{}}
